@@ -16,6 +16,24 @@ def vec_unit(name, std='17'):
     return D.Unit(uname, 'targets/vec_main.cpp', d, std=std, kind='asan', engine=True)
 
 
+def fs_unit(name, std='17'):
+    d = dict(NONSTD)
+    d.update(C.FS_DEFS[name])
+    uname = name if std == '17' else '%s_cxx%s' % (name, std)
+    d['VF_NAME'] = '"%s"' % uname
+    return D.Unit(uname, 'targets/flatset_main.cpp', d, std=std, kind='asan', engine=True)
+
+
+def fs_jobs(names, cases, maxlen, stds=('17',)):
+    jobs = []
+    for n in names:
+        for s in stds:
+            if s != '17' and n not in C.FS_MULTISTD:
+                continue
+            jobs.append({'unit': fs_unit(n, s), 'cases': cases, 'maxlen': maxlen})
+    return jobs
+
+
 def budget(tier, quick, thorough):
     return thorough if tier == 'thorough' else quick
 
@@ -121,6 +139,9 @@ def check_C02(tier, seed, t0):
     names = C.vec_subset(C.is_tracked)
     jobs = vec_jobs(names, cases, maxlen) + vec_jobs(C.VEC_MULTISTD, cases, maxlen, stds=('11', '14', '20'))
     parts = [interp_part('C02', 'vector_histories', jobs, seed, VEC_RULES['C02'], True)]
+    fsn = [n for n, _ in C.FS_CONFIGS if '_i32' not in n]
+    parts.append(interp_part('C02', 'flatset_histories', fs_jobs(fsn, cases, maxlen) + fs_jobs(C.FS_MULTISTD, cases, maxlen, stds=('11', '14', '20')), seed,
+                             'FlatSet tapes with identity-tracking elements; non-trivial = >=5 mutating ops incl. bulk insert/merge/hint/node/erase-range/hand-over', True))
     return finish('C02', tier, seed, 'exploration', parts, VEC_RULES['C02'], ASSUME_COMMON, t0)
 
 
@@ -136,6 +157,9 @@ def check_C06(tier, seed, t0):
     cases, maxlen = budget(tier, (20000, 60), (300000, 80))
     names = C.vec_subset(lambda n: not C.is_fcv(n))
     parts = [interp_part('C06', 'vector_histories', vec_jobs(names, cases, maxlen), seed, VEC_RULES['C06'], False)]
+    fsn = [n for n, _ in C.FS_CONFIGS if 'fcv24' not in n and 'real' not in n]
+    parts.append(interp_part('C06', 'flatset_histories', fs_jobs(fsn, cases, maxlen), seed,
+                             'FlatSet tapes on ledger allocators; non-trivial = >=5 mutating ops with a vector hand-over (FlatSet(vector&&), operator=(vector&&), steal_vector) or a range longer than 16', False))
     return finish('C06', tier, seed, 'exploration', parts, VEC_RULES['C06'], ASSUME_COMMON + ['all allocator instances compare equal'], t0)
 
 
@@ -145,13 +169,68 @@ def check_C07(tier, seed, t0):
     return finish('C07', tier, seed, 'exploration', parts, VEC_RULES['C07'], ASSUME_COMMON, t0)
 
 
-CHECKS = {'C01': check_C01, 'C02': check_C02, 'C05': check_C05, 'C06': check_C06, 'C07': check_C07}
+VEC_RULES.update({
+    'C08': 'histories with limit probes weighted up (fill to the neighbourhood of N / size_type max, then a growing call sized to exceed it by 1..3 '
+           'or by 255) and at() probes; non-trivial = a limit error was provoked and verified; distinct = effective trace hash',
+    'C10': 'histories with the eight aliasing call forms weighted up; non-trivial = source at/after the insertion point or a call that '
+           'reallocates; distinct = effective trace hash',
+    'C13': 'histories with same-type swap2 weighted up; non-trivial = swap2 executed among >=3 mutating ops; distinct = effective trace hash',
+    'C14': 'histories over container types declaring trivially_relocatable with a RELOCATE op (memcpy to fresh storage, poison and free the '
+           'source); non-trivial = a relocation followed by >=3 mutating ops on the relocated object; distinct = effective trace hash',
+})
+
+
+def check_C08(tier, seed, t0):
+    cases, maxlen = budget(tier, (30000, 50), (300000, 60))
+    names = C.vec_subset(C.is_8bit)
+    parts = [interp_part('C08', 'vector_histories', vec_jobs(names, cases, maxlen), seed, VEC_RULES['C08'], True, crash_class_codes=[44, 32])]
+    return finish('C08', tier, seed, 'exploration', parts, VEC_RULES['C08'], ASSUME_COMMON, t0)
+
+
+def check_C10(tier, seed, t0):
+    cases, maxlen = budget(tier, (30000, 50), (300000, 60))
+    names = C.vec_subset(lambda n: '_mo_' not in n and not n.endswith('_mo'))
+    parts = [interp_part('C10', 'vector_histories', vec_jobs(names, cases, maxlen), seed, VEC_RULES['C10'], True, crash_class_codes=list(range(36, 44)))]
+    return finish('C10', tier, seed, 'exploration', parts, VEC_RULES['C10'], ASSUME_COMMON, t0)
+
+
+def check_C13(tier, seed, t0):
+    cases, maxlen = budget(tier, (30000, 50), (300000, 60))
+    parts = [interp_part('C13', 'vector_histories_same_type', vec_jobs([n for n, _ in C.VEC_CONFIGS], cases, maxlen), seed, VEC_RULES['C13'], True, crash_class_codes=[26])]
+    return finish('C13', tier, seed, 'exploration', parts, VEC_RULES['C13'], ASSUME_COMMON, t0)
+
+
+def check_C14(tier, seed, t0):
+    cases, maxlen = budget(tier, (30000, 50), (300000, 60))
+    names = C.vec_subset(lambda n: n.startswith('vec_') or '_ntr' not in n and '_mo' not in n)
+    parts = [interp_part('C14', 'vector_histories', vec_jobs(names, cases, maxlen), seed, VEC_RULES['C14'], True, crash_class_codes=[47])]
+    fsn = [n for n, _ in C.FS_CONFIGS if 'stdvec' not in n and not ('_ntr' in n and ('sv4' in n or 'fcv24' in n)) and not ('_mo' in n and 'sv4' in n)]
+    parts.append(interp_part('C14', 'flatset_histories', fs_jobs(fsn, cases, maxlen), seed,
+                             'FlatSet tapes with RELOCATE; non-trivial = relocation followed by >=3 mutating ops', True, crash_class_codes=[29]))
+    return finish('C14', tier, seed, 'exploration', parts, VEC_RULES['C14'], ASSUME_COMMON, t0)
+
+
+FS_RULE = ('random op tapes (31 op codes over a pool of 3 sets + 2 sets of a sibling comparator type, keys from a 32-value domain) against '
+           'std::set<int,ModelCmp>; non-trivial = >=5 mutating ops including a bulk insert with duplicates, merge, hinted insert, node '
+           're-insert, erase-range or vector hand-over, and lookups of both a present and an absent key; distinct = effective trace hash')
+
+
+def check_C03(tier, seed, t0):
+    cases, maxlen = budget(tier, (30000, 60), (400000, 80))
+    parts = [interp_part('C03', 'flatset_histories', fs_jobs([n for n, _ in C.FS_CONFIGS], cases, maxlen), seed, FS_RULE, True)]
+    return finish('C03', tier, seed, 'exploration', parts, FS_RULE, ASSUME_COMMON, t0)
+
+
+CHECKS = {'C03': check_C03, 'C08': check_C08, 'C10': check_C10, 'C13': check_C13, 'C14': check_C14, 'C01': check_C01, 'C02': check_C02, 'C05': check_C05, 'C06': check_C06, 'C07': check_C07}
 
 
 def all_units():
     us = [vec_unit(n) for n, _ in C.VEC_CONFIGS]
     for s in ('11', '14', '20'):
         us += [vec_unit(n, s) for n in C.VEC_MULTISTD]
+    us += [fs_unit(n) for n, _ in C.FS_CONFIGS]
+    for s in ('11', '14', '20'):
+        us += [fs_unit(n, s) for n in C.FS_MULTISTD]
     return us
 
 
